@@ -61,5 +61,16 @@ static inline double c11_stod_tail(const vstr* s, size_t pos) {
   }
   return (double)acc;
 }
+/* std::string::find_first_not_of(const char* set): index of the first character that is not in the NUL-terminated set */
+static inline size_t c11_find_first_not_of(const vstr* s, const char* set) {
+  for (size_t i = 0; i < s->size; i++) {
+    int in_set = 0;
+    for (size_t k = 0; set[k] != 0; k++) if (s->data[i] == set[k]) in_set = 1;
+    if (!in_set) return i;
+  }
+  return C11_NPOS;
+}
+/* std::stoul / std::stoi / std::stol(s) restricted to texts of 1..9 decimal digits (value = the numeral); empty: invalid_argument */
+static inline unsigned long c11_stoul(const vstr* s) { return (unsigned long)c11_stod_tail(s, 0); }
 
 #endif
